@@ -44,6 +44,8 @@ KNOWN_EXPLAINS_DISAGREEMENT = False
 SELF_REFERENTIAL = {'l2', 'indl2', 'linf', 'indl1', 'kl', 'klcc', 'klce', 'klcecc'}
 
 
+EXPECTED_BRANCHES = fc.history_expected_branches()
+
 # --------------------------------------------------------------------------
 
 def gen_leaf(rng, S, exact):
@@ -486,6 +488,7 @@ def run(ctx, deep=False):
                 exact = False     # np.linalg.inv of the inverse is not exact
             check_expr(ctx, r, S, 'exact' if exact else 'general', lines, pend,
                        n_pts=2 if quick else 3)
+    fc.history_stream(ctx, 'C08', 12 if quick else 60)
     outs = core.run_driver('C08', lines)
     compare(ctx, pend, outs)
     ctx.extra['model_lines'] = len(lines)
@@ -503,6 +506,8 @@ def search(ctx, broken):
 
 
 def replay(ctx, case):
+    if case.get('history'):
+        return fc.history_replay(case)
     S = fc.get_space(case['space'])
     r = case['recipe']
     st, f = safe_call(fc.build, r, S, True)
